@@ -32,6 +32,7 @@ def main():
             res["verdict"] = "patch-does-not-apply"
             return res
         run("git reset -q", wt)  # unstage (3way stages)
+        run("git add -N .", wt)  # so that files the change adds are part of the stored patch
         # save the patch as it applies to the current base
         res["patch_on_head"] = run("git diff", wt)[1]
         rc, out = run("go build ./... && go vet ./... >/dev/null 2>&1; go build ./...", wt)
